@@ -204,8 +204,14 @@ def gen_project(rng, ctx, fixed=False):
         ctx['executable']('prog', files=['main.c'], libs=[inner], compile_options=['-DA=x;y', '-DB=h#i'])
         return
     word = lambda: rng.choice(ODD) if rng.random() < 0.4 else rng.choice(['1', 'x', 'long_name', 'k2'])
-    copt = lambda: [rng.choice(['-D', '-W', '-I/i ']) + word() for _ in range(rng.choice([0, 0, 1, 2]))]
-    lopt = lambda: [rng.choice(['-Wl,', '-L/l ']) + word() for _ in range(rng.choice([0, 0, 1, 2]))]
+    def rep_words(ws, pre):
+        # word lists in which the same word occurs more than once: two-word options sharing their first word, a word
+        # re-asserted after its negation (every occurrence and the order are part of what the script specified)
+        if ws and rng.random() < 0.35:
+            return rng.choice([[pre, ws[0], pre, 'second'], ws + ['-UREP'] + ws, ws + ws])
+        return ws
+    copt = lambda: rep_words([rng.choice(['-D', '-W', '-I/i ']) + word() for _ in range(rng.choice([0, 0, 1, 2]))], '-include')
+    lopt = lambda: rep_words([rng.choice(['-Wl,', '-L/l ']) + word() for _ in range(rng.choice([0, 0, 1, 2]))], '-Xlinker')
     if rng.random() < 0.5:
         ctx['global_options'](copt() or ['-DG'], lang='c')
     if rng.random() < 0.4:
